@@ -70,6 +70,64 @@ pub fn check(case: &Case, rec: &mut Rec) -> Option<Failure> {
     }
 }
 
+/// `x` moved by `k` units in the last place (k < 0: towards −inf), walking over the sign change and through the
+/// subnormals; saturates at ±f64::MAX (never produces inf/NaN from a finite input)
+pub fn step_ulps(x: f64, k: i64) -> f64 {
+    // monotone integer image of the finite floats: −0.0 and 0.0 both map to 0
+    let b = x.to_bits();
+    let mag = (b & 0x7fff_ffff_ffff_ffff) as i64;
+    let ord = if b >> 63 == 1 { -mag } else { mag };
+    let top = f64::MAX.to_bits() as i64;
+    let o = (ord + k).clamp(-top, top);
+    if o < 0 {
+        -f64::from_bits((-o) as u64)
+    } else {
+        f64::from_bits(o as u64)
+    }
+}
+
+/// a finite price of an arbitrary binade (sign, exponent and mantissa all random), or one of the extreme finite values
+fn any_finite(r: &mut Runner) -> f64 {
+    match r.rng.below(8) {
+        0 => *r.rng.pick(&[f64::MAX, -f64::MAX, 1e308, -1e308, 1.7e308, 6e307, f64::MIN_POSITIVE, -f64::MIN_POSITIVE, 5e-324, -5e-324, 1e-310, 2.2250738585072009e-308, 0.0, -0.0]),
+        1 => {
+            // subnormal
+            let m = r.rng.u64() & 0x000f_ffff_ffff_ffff;
+            let x = f64::from_bits(m);
+            if r.rng.chance(0.3) { -x } else { x }
+        }
+        2 | 3 => {
+            // the top binades: sums of two or three such prices overflow
+            let e = 0x7fe - r.rng.below(3) as u64;
+            let x = f64::from_bits((e << 52) | (r.rng.u64() & 0x000f_ffff_ffff_ffff));
+            if r.rng.chance(0.3) { -x } else { x }
+        }
+        _ => loop {
+            let x = f64::from_bits(r.rng.u64());
+            if x.is_finite() {
+                break x;
+            }
+        },
+    }
+}
+
+/// a "market" price: the cent grid 0.01..=1000.00 (k/100 rounded to f64, as parsed from a decimal string), sometimes
+/// a tick grid of another size or an arbitrary value
+fn market_price(r: &mut Runner) -> f64 {
+    match r.rng.below(6) {
+        0 => r.rng.range(1, 100000) as f64 / 1e4,
+        1 => (r.rng.unit() - 0.2) * 1000.0,
+        2 => r.rng.range(1, 100000) as f64 * 0.01,
+        _ => r.rng.range(1, 100000) as f64 / 100.0,
+    }
+}
+
+fn bar_case(kind: &str, o: f64, h: f64, l: f64, c: f64, v: f64) -> Case {
+    let mut cs = Case::new("C16", kind, "DataItem", &[], &[]);
+    cs.extra = vec![0.0, o, 1.0, h, 2.0, l, 3.0, c, 4.0, v];
+    cs
+}
+
 pub fn generate(r: &mut Runner) {
     r.log_every = if r.tier == Tier::Quick { 13 } else { 7 };
     // all 10^5 lattice tuples, canonical setter order
@@ -109,6 +167,96 @@ pub fn generate(r: &mut Runner) {
         }
         r.run(c, true);
     }
+    // FLAT bars (open = high = low = close = p, always consistent): every price of the cent grid 0.01..=1000.00
+    // (thorough: all 10^5; quick: every 7th plus random ones), with volume 0 / positive
+    let stride = if r.tier == Tier::Quick { 7 } else { 1 };
+    let mut k = 1 + r.rng.below(stride);
+    while k <= 100000 {
+        let p = k as f64 / 100.0;
+        let v = *r.rng.pick(&[0.0, 1.0, 1250.0, 1e9]);
+        r.run(bar_case("flat-cent", p, p, p, p, v), true);
+        k += stride;
+    }
+    // flat and consistent bars at arbitrary finite magnitudes: any sign, every binade, subnormals, the top binades
+    // (where sums of prices overflow) and the extreme values themselves
+    let cases = if r.tier == Tier::Quick { 6000 } else { 200000 };
+    for i in 0..cases {
+        let v = match r.rng.below(5) {
+            0 => 0.0,
+            1 => any_finite(r).abs(),
+            2 => f64::MAX,
+            _ => r.rng.unit() * 1e6,
+        };
+        if i % 2 == 0 {
+            let p = if r.rng.chance(0.3) { market_price(r) } else { any_finite(r) };
+            r.run(bar_case("flat-any", p, p, p, p, v), true);
+        } else {
+            // four prices of (mostly) neighbouring magnitudes, sorted into a consistent bar
+            let a = any_finite(r);
+            let mut q = [a, 0.0, 0.0, 0.0];
+            for j in 1..4 {
+                q[j] = match r.rng.below(4) {
+                    0 => any_finite(r),
+                    1 => q[r.rng.below(j)],
+                    2 => a * (0.5 + r.rng.unit()),
+                    _ => step_ulps(a, r.rng.range(0, 2000) as i64 - 1000),
+                };
+            }
+            let lo = q.iter().cloned().fold(f64::INFINITY, f64::min);
+            let hi = q.iter().cloned().fold(f64::NEG_INFINITY, f64::max);
+            let (o, c) = (*r.rng.pick(&q), *r.rng.pick(&q));
+            r.run(bar_case("consistent-any", o, hi, lo, c, v), true);
+        }
+    }
+    // NEAR-TIES around each of the six comparisons: a consistent bar is drawn, then the field on one side of one
+    // comparison is placed k units in the last place (k in −4..=4, every value) from the field on the other side —
+    // the boundary of the accepted set, one ulp at a time; the oracle recomputes the exact comparisons
+    let rounds = if r.tier == Tier::Quick { 700 } else { 30000 };
+    for _ in 0..rounds {
+        // base bar l <= o, c <= h at a market or an arbitrary magnitude
+        let (mut o, mut h, mut l, mut c);
+        if r.rng.chance(0.6) {
+            let p = market_price(r);
+            let w = p.abs() * 0.02 * r.rng.unit();
+            l = p - w;
+            h = p + w;
+            o = l + (h - l) * r.rng.unit();
+            c = l + (h - l) * r.rng.unit();
+        } else {
+            let p = any_finite(r);
+            l = step_ulps(p, -(r.rng.range(0, 64) as i64));
+            h = step_ulps(p, r.rng.range(0, 64) as i64);
+            o = p;
+            c = if r.rng.chance(0.5) { l } else { h };
+        }
+        if r.rng.chance(0.2) {
+            // flat base: every comparison is a tie
+            o = l;
+            c = l;
+            h = l;
+        }
+        let v0 = if r.rng.chance(0.5) { 0.0 } else { r.rng.unit() * 1e4 };
+        let cmp = r.rng.below(6);
+        let moved_first = r.rng.chance(0.5);
+        for k in -4i64..=4 {
+            let (mut o2, mut h2, mut l2, mut c2, mut v2) = (o, h, l, c, v0);
+            // comparison #cmp is  a <= b ; either a := b + k ulps or b := a + k ulps
+            match (cmp, moved_first) {
+                (0, true) => l2 = step_ulps(o, k),
+                (0, false) => o2 = step_ulps(l, k),
+                (1, true) => l2 = step_ulps(c, k),
+                (1, false) => c2 = step_ulps(l, k),
+                (2, true) => l2 = step_ulps(h, k),
+                (2, false) => h2 = step_ulps(l, k),
+                (3, true) => o2 = step_ulps(h, k),
+                (3, false) => h2 = step_ulps(o, k),
+                (4, true) => c2 = step_ulps(h, k),
+                (4, false) => h2 = step_ulps(c, k),
+                _ => v2 = step_ulps(if moved_first { 0.0 } else { -0.0 }, k),
+            }
+            r.run(bar_case("near-tie", o2, h2, l2, c2, v2), true);
+        }
+    }
 }
 
-pub const RULE: &str = "all 10^5 five-tuples over the lattice {-inf,-2,-1,-0.0,0.0,1,2,3,+inf,NaN} (every order type of the four prices, every sign class of volume, NaN in every position) — exhaustive; all 32 subsets of the five setters; random setter sequences of length 3..12 with repetitions and arbitrary order (half lattice, half random finite values): the oracle recomputes completeness and the six comparisons from the LAST value per field, and compares getters bit for bit. Every build is also logged and replayed on the generated model of DataItemBuilder (sampled). All cases non-trivial; distinct = distinct setter sequences.";
+pub const RULE: &str = "all 10^5 five-tuples over the lattice {-inf,-2,-1,-0.0,0.0,1,2,3,+inf,NaN} (every order type of the four prices, every sign class of volume, NaN in every position) — exhaustive; all 32 subsets of the five setters; random setter sequences of length 3..12 with repetitions and arbitrary order (half lattice, half random finite values); FLAT bars o=h=l=c=p for the prices of the cent grid 0.01..=1000.00 (all 10^5 thorough, every 7th from a random offset quick) and for p of any sign and binade: uniformly random bit patterns, subnormals, the three top binades, f64::MAX, 1e308, MIN_POSITIVE, 5e-324, ±0 (volume 0, random, subnormal or f64::MAX); consistent non-flat bars sorted from four such prices (equal, neighbouring within 1000 ulps, within a factor 2, or unrelated); NEAR-TIES: from a consistent (20% flat) bar on a market grid or at an arbitrary magnitude, one side of ONE of the six comparisons (l<=o, l<=c, l<=h, o<=h, c<=h, 0<=v; which side moves is random) is set to the other side + k units in the last place for every k in −4..=4 (crossing zero and the subnormals for volume): the oracle recomputes completeness and the six comparisons exactly from the LAST value per field, and compares getters bit for bit. Every build is also logged and replayed on the generated model of DataItemBuilder (sampled). All cases non-trivial; distinct = distinct setter sequences.";
